@@ -19,6 +19,8 @@
 //! (Ok or Err) — no panic, and every case finishes (watchdog).
 
 mod alphabet;
+mod extra;
+mod loader;
 mod malformed;
 mod valid;
 
@@ -62,6 +64,8 @@ fn replay(ctx: &Ctx, w: &World, case: &Value) {
             }
         }
         "growth" => malformed::replay_growth(w, &case, l),
+        "loader" => loader::replay_loader(ctx, w, &case, l),
+        "include-valid" => loader::replay_include(ctx, w, &case, l),
         "short-range" => malformed::replay_short_range(w, &case, l),
         "include" => {
             let dir = malformed::scratch_dir();
@@ -72,6 +76,36 @@ fn replay(ctx: &Ctx, w: &World, case: &Value) {
         }
         other => eprintln!("cannot replay case kind {other:?}; re-run the tier instead"),
     });
+}
+
+/// Run one valid-direction family: every tuple x every legal layout vector of the profile.
+#[allow(clippy::too_many_arguments)]
+fn run_family(
+    ctx: &Ctx,
+    w: &World,
+    name: &str,
+    alpha_name: &'static str,
+    alpha: &[alphabet::Entry],
+    tuples: &[Vec<usize>],
+    prof: &Profile,
+    total: &Mutex<Stats>,
+    profiles: &mut serde_json::Map<String, Value>,
+) -> Stats {
+    profiles.insert(name.to_string(), prof.describe());
+    let stats = Mutex::new(Stats::default());
+    ctx.par_run(tuples.len() as u64, 1, |i, l| {
+        let en = Enum { ctx, w, alpha_name, alpha, profile: prof, stats: &stats };
+        en.run_tuple(&tuples[i as usize], l);
+    });
+    let st = stats.into_inner().unwrap();
+    ctx.set(&format!("valid_{}_tuples", name.replace('-', "_")), json!(tuples.len()));
+    ctx.set(&format!("valid_{}_files", name.replace('-', "_")), json!(st.legal));
+    eprintln!("[C20] {name}: tuples={} legal={} ok={} violating={} minimised={} unjudged={} at {:.1}s", tuples.len(), st.legal, st.ok, st.violating, st.minimised, st.unjudged, ctx.elapsed_s());
+    if st.ok == 0 {
+        ctx.machinery_failure(&format!("vacuous: family {name} has no accepted file"));
+    }
+    total.lock().unwrap().add(&st);
+    st
 }
 
 fn main() {
@@ -104,6 +138,12 @@ fn main() {
     ctx.assume("expected RDATA values are built with hickory's constructors (not its text parser) from the same typed values the printer receives");
     ctx.assume("RRsets that RFC 2181 §5.2 forbids (mixed TTL/class, two SOAs, two CNAMEs) are run but their record comparison is not judged");
     ctx.case_timeout_s.store(if thorough { 180 } else { 60 }, std::sync::atomic::Ordering::Relaxed);
+
+    let dir = malformed::scratch_dir();
+    let _ = std::fs::remove_dir_all(&dir);
+    if let Err(e) = std::fs::create_dir_all(&dir) {
+        vcore::machinery_exit(&format!("cannot create scratch dir {dir:?}: {e}"));
+    }
 
     // ---------------------------------------------------------------------------------- valid
     let singles = alphabet::singles();
@@ -160,7 +200,7 @@ fn main() {
     {
         let prof = Profile::pair(thorough);
         profiles.insert("pair".into(), prof.describe());
-        let (nenv, nshape) = if thorough { (6, 6) } else { (4, 4) };
+        let (nenv, nshape) = if thorough { (6, 6) } else { (3, 4) };
         let pick: Vec<usize> = (0..36).filter(|i| i / 6 < nenv && i % 6 < nshape).collect();
         let stats = Mutex::new(Stats::default());
         let n = (pick.len() * pick.len()) as u64;
@@ -214,6 +254,66 @@ fn main() {
         total.lock().unwrap().add(&st);
     }
     eprintln!("[C20] chain triples done at {:.1}s", ctx.elapsed_s());
+
+    // records that share an RRset: ordered pairs / triples of distinct RDATA shapes of one type
+    {
+        let alpha = alphabet::rrset_alphabet();
+        let tuples = alphabet::rrset_tuples(&alpha);
+        let pairs: Vec<Vec<usize>> = tuples.iter().filter(|t| t.len() == 2).cloned().collect();
+        let triples: Vec<Vec<usize>> = tuples.iter().filter(|t| t.len() == 3).cloned().collect();
+        let st = run_family(&ctx, &w, "rrset-pair", "rrset", &alpha, &pairs, &Profile::rrset(2), &total, &mut profiles);
+        if st.dimvals[2][3] == 0 {
+            ctx.machinery_failure("vacuous: no inherited owner in the RRset pairs");
+        }
+        run_family(&ctx, &w, "rrset-triple", "rrset", &alpha, &triples, &Profile::rrset(3), &total, &mut profiles);
+    }
+    // every RDATA shape in the classes CH and HS
+    {
+        let alpha = alphabet::class_alphabet();
+        let tuples: Vec<Vec<usize>> = (0..alpha.len()).map(|i| vec![i]).collect();
+        run_family(&ctx, &w, "class-sweep", "class", &alpha, &tuples, &Profile::class_sweep(), &total, &mut profiles);
+    }
+    // names at the 63 / 255 octet limits relative to long origins
+    {
+        let n = extra::name_limits(&ctx);
+        ctx.set("valid_name_limit_cases", json!(n));
+        eprintln!("[C20] name limits: {} cases, within={} beyond-rejected={} at {:.1}s", n, ctx.outcome_count("limits:within:loaded-exactly"), ctx.outcome_count("limits:beyond:rejected"), ctx.elapsed_s());
+        if ctx.outcome_count("limits:within:loaded-exactly") == 0 || ctx.outcome_count("limits:beyond:rejected") == 0 {
+            ctx.machinery_failure("vacuous: name-limit family exercised only one side of the limit");
+        }
+    }
+    // the server's loader: parsed set == loaded zone == AXFR of the loaded zone
+    {
+        let n = loader::loader_family(&ctx, &w, &dir.join("loader"), thorough);
+        ctx.set("loader_zone_files", json!(n));
+        eprintln!("[C20] loader: {} zone files, ok={} skipped={} at {:.1}s", n, ctx.outcome_count("loader:ok"), ctx.outcome_count("loader:skipped:parser-level-difference"), ctx.elapsed_s());
+        if ctx.outcome_count("loader:ok") == 0 {
+            ctx.machinery_failure("vacuous: the loader differential never compared a loaded zone");
+        }
+        let (ni, nl) = loader::include_family(&ctx, &w, &dir.join("include"));
+        ctx.set("include_valid_cases", json!(ni));
+        ctx.set("include_loader_cases", json!(nl));
+        eprintln!("[C20] $INCLUDE valid: {} parser cases (ok={}), {} loader cases (ok={}) at {:.1}s", ni, ctx.outcome_count("include:ok"), nl, ctx.outcome_count("include-loader:ok"), ctx.elapsed_s());
+        if ctx.outcome_count("include:ok") == 0 {
+            ctx.machinery_failure("vacuous: no $INCLUDE case was loaded exactly");
+        }
+    }
+    // depth-4 owner/TTL/class chains (thorough)
+    if thorough {
+        let alpha = alphabet::chain4_alphabet();
+        let k = alphabet::CHAIN4_ENVS;
+        let mut tuples = vec![];
+        for a in 0..k {
+            for b in 0..k {
+                for c in 0..k {
+                    for d in 0..k {
+                        tuples.push(vec![a, k + b, 2 * k + c, 3 * k + d]);
+                    }
+                }
+            }
+        }
+        run_family(&ctx, &w, "chain4", "chain4", &alpha, &tuples, &Profile::chain4(), &total, &mut profiles);
+    }
     // ordered triples (thorough)
     if thorough {
         let prof = Profile::triple();
@@ -268,11 +368,6 @@ fn main() {
     ctx.set("short_string_max_len", json!(max_len));
 
     eprintln!("[C20] short strings done at {:.1}s", ctx.elapsed_s());
-    let dir = malformed::scratch_dir();
-    let _ = std::fs::remove_dir_all(&dir);
-    if let Err(e) = std::fs::create_dir_all(&dir) {
-        vcore::machinery_exit(&format!("cannot create scratch dir {dir:?}: {e}"));
-    }
     std::fs::write(dir.join("inc.zone"), "inc 1 IN A 192.0.2.7\n").expect("scratch write");
 
     let seeds = malformed::seeds(&w, &singles, &sub);
@@ -296,11 +391,18 @@ fn main() {
     if seed_ok * 2 < seeds.len() {
         ctx.machinery_failure("vacuous: fewer than half of the seed files are accepted by the parser");
     }
-    let (e1, e2) = malformed::edits(&ctx, &w, &seeds, &dir, if thorough { 8 } else { 0 });
+    let chain_seeds = malformed::chain_seeds();
+    let (e1, e2) = malformed::edits(&ctx, &w, &seeds, &dir, if thorough { 8 } else { 0 }, &chain_seeds);
     ctx.set("single_edits", json!(e1));
     ctx.set("double_edits", json!(e2));
 
     eprintln!("[C20] edits done at {:.1}s", ctx.elapsed_s());
+    let nt = malformed::ttl_tokens(&ctx, &w, if thorough { 5 } else { 4 });
+    ctx.set("ttl_token_cases", json!(nt));
+    eprintln!("[C20] ttl tokens: {} cases, decimal exact={} at {:.1}s", nt, ctx.outcome_count("ttl-token:decimal:exact"), ctx.elapsed_s());
+    if ctx.outcome_count("ttl-token:decimal:exact") == 0 {
+        ctx.machinery_failure("vacuous: no decimal TTL token was judged");
+    }
     let mut points = malformed::growth(&ctx, &w, thorough);
     points.extend(malformed::includes(&ctx, &w, &dir));
     let _ = std::fs::remove_dir_all(&dir);
